@@ -35,6 +35,8 @@ class Fn:
     blocks: dict          # name -> Block
     text: str = ""
     consts: dict = field(default_factory=dict)   # named integer constants defined inside this function (printed after it)
+    debug: dict = field(default_factory=dict)    # source variable name -> place expression
+    upvars: dict = field(default_factory=dict)   # closure bodies: captured field index -> (source name, by_ref)
 
 
 def dump_mir(repo: Path, features_default: bool = True, timeout=600) -> str:
@@ -150,8 +152,17 @@ def parse_fn(body: list):
     locs = {}
     blocks = {}
     cur = None
+    debug = {}
+    upvars = {}
     for ln in body[1:-1]:
         s = ln.strip()
+        md = re.match(r"^debug (\w+) => (.*);$", s)
+        if md:
+            debug.setdefault(md.group(1), md.group(2))
+            mu = re.match(r"^\(\*\(_1\.(\d+): (&.*)\)\)$", md.group(2)) or re.match(r"^\(_1\.(\d+): (.*)\)$", md.group(2))
+            if mu:
+                upvars.setdefault(int(mu.group(1)), (md.group(1), mu.group(2).startswith("&")))
+            continue
         if not s or s.startswith("debug ") or s.startswith("scope ") or s == "}" and cur is None:
             continue
         m = re.match(r"^let (mut )?(_\d+): (.*);$", s)
@@ -173,7 +184,10 @@ def parse_fn(body: list):
             cur.stmts.append(s.rstrip(";") if s.endswith(";") else s)
     for loc, ty in args:
         locs[loc] = ty
-    return Fn(header, name, args, ret, locs, blocks, "\n".join(body))
+    f = Fn(header, name, args, ret, locs, blocks, "\n".join(body))
+    f.debug = debug
+    f.upvars = upvars
+    return f
 
 
 def find(fns: list, name_re: str, arg0_re: str | None = None) -> Fn:
